@@ -5,6 +5,7 @@ import H3.Props.C05
 import H3.Props.C11Closed
 import H3.Props.C12
 import H3.Props.C14
+import H3.Lemmas.Setup
 /-! # C06 — no peer behaviour makes h3 panic or leaves a call pending for ever
 
 Property theorems only; vocabulary and proofs are in `H3/Lemmas/C06{Frame,Req,Run,Ctl}.lean`.
@@ -415,5 +416,100 @@ theorem C06_send_side (w : WriteBuf.WB) (hwf : w.WF) (script : List Nat) :
 example : (match WriteBuf.write (WriteBuf.fromFrame (.data [9, 8, 7])) [1, 0, 2, 1] with
     | .pending out w => (out, w.view)
     | _ => ([], [])) = ([0x00, 0x03, 9], [8, 7]) := by decide +kernel
+
+/-! ## 8. The setup of a connection against a transport that fails -/
+
+section setup
+open H3.Setup H3.ErrCell H3.Lemmas.Setup
+
+/-- **`builder.build(conn)` against any transport.**  `T`/`tr` is an arbitrary state machine answering
+    `poll_open_send`, `send_data`, `poll_ready` with `Pending`, `Ok` or any `StreamErrorIncoming`
+    (every `ConnectionErrorIncoming` variant, `StreamTerminated`, `Unknown`) at any call, depending
+    on everything that happened before; the future is polled any number of times.  (The model has
+    no panic outcome: these paths contain no `unwrap`/`expect`/index.)  Whatever the transport does:
+    * while the future is `Pending`, and when it returns `Ok`, `close` has not been called;
+    * when it returns an error, `close` was called exactly when the error was detected locally,
+      once, with exactly its code: `Local` with code `c` ⇒ `closes = [c]`, the transport's
+      `InternalError` (reported as `Remote(InternalError)`) ⇒ `closes = [H3_INTERNAL_ERROR]`,
+      `Timeout` / `Remote(ApplicationClose)` / `Remote(Undefined)` ⇒ no close; `Remote(Timeout)` never;
+    * a local error of the setup has code H3_CLOSED_CRITICAL_STREAM (the control stream could not be
+      opened, or was stopped / broke while SETTINGS were written) or H3_INTERNAL_ERROR (the
+      transport's `InternalError` before the connection object exists). -/
+theorem C06_setup_outcome {T : Type} (tr : Transport T) (fuel : Nat) (t : T) :
+    match (buildRun tr fuel t {}).2 with
+    | (s, none) => s.drv = {}
+    | (s, some none) => s.drv = {}
+    | (s, some (some e)) => OutcomeOK e s.drv.closes ∧
+        ∀ c x, e = .localApp c x → c = 0x0104 ∨ c = 0x0102 := by
+  have h := buildRun_ok tr fuel t {} rfl (by simp)
+  unfold RunOK at h
+  rcases hr : (buildRun tr fuel t {}).2 with ⟨s, r⟩
+  rw [hr] at h
+  cases r with
+  | none => simpa using h
+  | some r =>
+    cases r with
+    | none => simpa using h
+    | some e => exact h
+
+/-- **Only the control stream can fail the setup.**  If the calls on the control stream — opening
+    it, `send_data` and `poll_ready` on it — never answer an error, `build` never returns one,
+    whatever the calls on the two QPACK streams answer (failed openings: the streams are left out;
+    failed writes: ignored). -/
+theorem C06_setup_only_control_stream_fails {T : Type} (tr : Transport T) (h : CtlOk tr) (fuel : Nat) (t : T)
+    (e : CErr) : (buildRun tr fuel t {}).2.2 ≠ some (some e) :=
+  buildRun_ctlOk tr h fuel t {} (by simp [CtlClean]) e
+
+/-- the control stream cannot be opened: the error of `handle_quic_error_raw` /
+    `close_raw_connection_with_h3_error`, whatever the other two openings answered -/
+theorem C06_setup_control_open_error {T : Type} (tr : Transport T) (t : T) (e : SErr) (rest : List (Option SErr)) :
+    (afterOpens tr t {} (some e :: rest) false).res = some (some (openCtlErr e).1) ∧
+    (afterOpens tr t {} (some e :: rest) false).st.drv.closes = (openCtlErr e).2.toList ∧
+    openCtlErr (.conn .timeout) = (.timeout, none) ∧
+    (∀ x, openCtlErr (.conn (.internal x)) = (.localApp 0x0102 x, some 0x0102)) ∧
+    (∀ c, openCtlErr (.conn (.appClose c)) = (.remote (.appClose c), none)) ∧
+    (∀ x, openCtlErr (.conn (.undefined x)) = (.remote (.undefined x), none)) ∧
+    (∀ c, openCtlErr (.terminated c) = (.localApp 0x0104 0, some 0x0104)) ∧
+    (∀ x, openCtlErr (.unknown x) = (.localApp 0x0104 1, some 0x0104)) := by
+  refine ⟨by simp [afterOpens], by simp [afterOpens], rfl, fun _ => rfl, fun _ => rfl, fun _ => rfl,
+    fun _ => rfl, fun _ => rfl⟩
+
+/-- **`Pending` only while the transport says `Pending`.**  A poll of `build` that returns `Pending`
+    has made a transport call that answered `Pending` in this very poll (so the transport holds the
+    task's waker); and against a transport that answers every opening and every `poll_ready` at
+    once — what a transport does once the connection has failed or was closed — a single poll
+    finishes the setup, from whatever point it had reached. -/
+theorem C06_setup_pending_only_on_transport {T : Type} (tr : Transport T) (t : T) (s : BSt) (hd : s.drv = {})
+    (hp : s.phase ≠ .finished) :
+    ((buildPoll tr t s).res = none → (buildPoll tr t s).sawPending = true) ∧
+    (NoWait tr → (buildPoll tr t s).res ≠ none) := by
+  refine ⟨fun hn => ?_, fun hw => buildPoll_completes tr hw t s hd hp⟩
+  have h := buildPoll_ok tr t s hd hp
+  simp only [ResOK, hn] at h
+  exact h.2.2
+
+-- non-vacuity, scripted transports (`scriptTr`: the answers to successive calls)
+-- everything succeeds: three openings, then `send_data`/`poll_ready` of control, decoder, encoder
+example : (buildRun scriptTr 1 [.ok, .ok, .ok, .ok, .ok, .ok, .ok, .ok, .ok] {}).2 =
+    ({ phase := .finished }, some none) := by decide +kernel
+-- the control stream cannot be opened: the transport's InternalError ⇒ Local H3_INTERNAL_ERROR, closed once
+example : (buildRun scriptTr 1 [.err (.conn (.internal 7)), .err (.conn (.internal 7)), .err (.conn (.internal 7))] {}).2 =
+    ({ phase := .finished, drv := { closes := [0x0102] } }, some (some (.localApp 0x0102 7))) := by decide +kernel
+-- stream credit arrives late, then SETTINGS wait for write credit (two polls end `Pending`) until the
+-- peer stops the control stream: Local H3_CLOSED_CRITICAL_STREAM, closed once
+example : (buildRun scriptTr 2 [.ok, .pending, .ok, .ok, .ok, .pending, .ok, .ok, .ok, .ok, .err (.terminated 9)] {}).2.2 =
+    none := by decide +kernel
+example : (buildRun scriptTr 3 [.ok, .pending, .ok, .ok, .ok, .pending, .ok, .ok, .ok, .ok, .err (.terminated 9)] {}).2 =
+    ({ phase := .finished, drv := { handled := some (.localApp 0x0104 0), closes := [0x0104] } },
+     some (some (.localApp 0x0104 0))) := by decide +kernel
+-- a QPACK stream that cannot be opened (`Unknown`) and one whose write fails: the setup succeeds
+example : (buildRun scriptTr 1 [.ok, .err (.unknown 0), .ok, .ok, .ok, .err (.terminated 3)] {}).2 =
+    ({ phase := .finished }, some none) := by decide +kernel
+-- the connection times out while SETTINGS wait for write credit
+example : (buildRun scriptTr 2 [.ok, .ok, .ok, .ok, .pending, .ok, .pending, .ok, .pending,
+    .err (.conn .timeout), .err (.conn .timeout), .err (.conn .timeout)] {}).2 =
+    ({ phase := .finished, drv := { handled := some .timeout } }, some (some .timeout)) := by decide +kernel
+
+end setup
 
 end H3.Props.C06
